@@ -365,10 +365,12 @@ pub fn run_wrap(case: &Value, _seed: u64) -> Outcome {
         let exp_sv: Vec<String> = items.iter().filter_map(|i| if let ItemExp::Substvar(s) = i { Some(s.clone()) } else { None }).collect();
         let parsed = match guarded("Relations::parse_relaxed", || Relations::parse_relaxed(&text, true)) { Ok((r, e)) if e.is_empty() => r, _ => continue };
         o.evals += 1;
-        let w = match guarded("Relations::wrap_and_sort", move || parsed.wrap_and_sort().to_string()) {
+        // the RETURNED object is kept: it must report what its text says and be a fixed point itself
+        let wobj = match guarded("Relations::wrap_and_sort", move || parsed.wrap_and_sort()) {
             Ok(w) => w,
             Err(msg) => { o.v("C13", "total", "Relations::wrap_and_sort", "panic", &feats, &text, msg); continue; }
         };
+        let w = wobj.to_string();
         // 1. parses strictly (tolerantly with substvars) and denotes the same dependencies
         let (wr, werrs) = match guarded("Relations::parse_relaxed", || Relations::parse_relaxed(&w, true)) { Ok(x) => x, Err(msg) => { o.v("C13", "reparse", "Relations::wrap_and_sort", "panic", &feats, &text, msg); continue; } };
         if !werrs.is_empty() || (!has_sv && Relations::from_str(&w).is_err()) {
@@ -396,6 +398,15 @@ pub fn run_wrap(case: &Value, _seed: u64) -> Outcome {
         let names: Vec<Vec<&str>> = ws.iter().map(|e| e.iter().map(|r| r.name.as_str()).collect()).collect();
         if names.iter().any(|e| e.windows(2).any(|p| p[0] > p[1])) || names.windows(2).any(|p| p[0] > p[1]) {
             o.v("C13", "sorted", "Relations::wrap_and_sort", "mismatch", &feats, &text, format!("output {:?} is not sorted by name", w));
+        }
+        // the returned object's accessors show the same components as its text re-read
+        match lossless_structure(&wobj) {
+            Ok((os, osv)) => { if os != ws || osv != wsv { o.v("C13", "returned_object", "Relations::wrap_and_sort", "mismatch", &feats, &text, format!("output {:?}: the returned object reports {:?} {:?}, its text reads {:?} {:?}", w, os, osv, ws, wsv)); } }
+            Err(msg) => o.v("C13", "returned_object", "Relations::wrap_and_sort", "panic", &feats, &text, msg),
+        }
+        match guarded("Relations::wrap_and_sort", move || wobj.wrap_and_sort().to_string()) {
+            Ok(w2) => { if w2 != w { o.v("C13", "idempotent", "Relations::wrap_and_sort (on the returned object)", "mismatch", &feats, &text, format!("first {:?} second {:?}", w, w2)); } }
+            Err(msg) => o.v("C13", "idempotent", "Relations::wrap_and_sort (on the returned object)", "panic", &feats, &text, msg),
         }
         // 4. idempotent
         match guarded("Relations::wrap_and_sort", move || wr.wrap_and_sort().to_string()) {
